@@ -42,7 +42,8 @@ static struct vf_ghost G;
 static struct fin_op OP;
 static struct fin_rcv RCV;
 
-#define STARTED_INIT (/*@EXPR started_init*/)
+/* member initialiser of started_, as written in the class (a member without initialiser is left nondeterministic) */
+#define STARTED_INIT_INTO(lv) do { _Bool vf_s /*@EXPR started_init*/; (lv) = vf_s; } while (0)
 
 #include "vf.h"
 static void vf_interfere(void) {}
@@ -74,7 +75,7 @@ static void vf_op_may_be_gone(void) {
 }
 #define UNTOUCHED_IF_DEAD (!G.dead || (OP.completionSender_ == G.snap.completionSender_ && OP.receiver_ == G.snap.receiver_ && OP.started_ == G.snap.started_))
 #define VF_DISCR(self) (*({ VF_P(!G.dead, "the discriminator is not read after the operation may have been destroyed"); \
-  VF_P((self)->started_ == G.started, "the discriminator started_ equals the ghost at every read: true exactly when start() has started the source"); &(self)->started_; }))
+  VF_P(!(self)->started_ == !G.started, "the discriminator started_ equals the ghost at every read: true exactly when start() has started the source"); &(self)->started_; }))
 
 /* ---------------- event stubs ---------------- */
 #define EV_PRE(op) do { VF_P((op) == &OP, "the receiver's op_ is the operation it was connected for"); \
@@ -300,7 +301,7 @@ __CPROVER_ensures(G.channel == CH_DONE)
 
 /* ---- the operation state ---- */
 void fin_op_ctor(struct fin_op* self, int sourceSender)
-__CPROVER_requires(self == &OP && STS_EMPTY(G.slot) && OP.started_ == STARTED_INIT && !G.started && G.completed == 0 && G.running == -1 && FRESH)
+__CPROVER_requires(self == &OP && STS_EMPTY(G.slot) && !G.started && G.completed == 0 && G.running == -1 && FRESH)
 __CPROVER_assigns(G, OP)
 __CPROVER_ensures(G.completed == 0 && G.child_starts == 0)           /* nothing is delivered, nothing started by connect */
 __CPROVER_ensures(!G.ctor_threw ==> NOW(ST_UNSTARTED))
@@ -332,7 +333,7 @@ static void h_state(int st) {
   G.running = -1; G.in_dtor = 0; G.started = 0; G.parked_value = 0; G.parked_error = 0; G.err_nothrow = 0; G.connected = -1; G.connect_tried = 0;
   G.child_starts = 0; G.completed = 0; G.channel = CH_NONE; G.payload = 0; G.dead = 0; G.progressed = 0;
   G.copy_threw = 0; G.connect_threw = 0; G.move_threw = 0; G.rcv_threw = 0; G.ctor_threw = 0; G.values_moved = 0;
-  OP.completionSender_ = VF_nondet_int(); OP.receiver_ = VF_nondet_int(); OP.started_ = STARTED_INIT; RCV.op_ = &OP;
+  OP.completionSender_ = VF_nondet_int(); OP.receiver_ = VF_nondet_int(); STARTED_INIT_INTO(OP.started_); RCV.op_ = &OP;
   if (st >= H_RUN_SOURCE) { OP.started_ = 1; G.started = 1; }
   switch (st) {
     case H_UNSTARTED: G.slot[SL_sourceOp_] = SS_ALIVE; break;
@@ -426,7 +427,7 @@ void lemma_fin_lifecycle(void) {
   VF_P(CNT_A(a.slot) <= 1 && CNT_B(a.slot) <= 1, "lemma: in every reachable state at most one child operation and at most one parked result is alive (the unions are never shared)");
   VF_P(cnt_started(a.slot) == (AT(ST_UNSTARTED, a) || AT(ST_COMPLETED, a) ? 0u : 1u), "lemma: exactly one child is running unless the operation is unstarted or completed");
   VF_P(IMP(cnt_started(a.slot) == 0, AT(ST_UNSTARTED, a) || AT(ST_COMPLETED, a)), "lemma: whenever no child is running (the only moments the operation may be destroyed) the destructor's precondition holds");
-  VF_P(a.sf == a.sg && IMP(cnt_started(a.slot) == 0, a.sf == (a.slot[SL_sourceOp_] == SS_EMPTY)), "lemma: started_ agrees with its ghost, and at destruction it is false exactly when the source operation is still alive");
+  VF_P(!a.sf == !a.sg && IMP(cnt_started(a.slot) == 0, !a.sf == (a.slot[SL_sourceOp_] != SS_EMPTY)), "lemma: started_ agrees with its ghost, and at destruction it is false exactly when the source operation is still alive");
   VF_P(b.co >= a.co && b.co <= 1 && IMP(b.co == 1 && a.co == 0, cnt_started(a.slot) == 1), "lemma: one completion signal at most over the life of the operation, delivered from a child's completion");
   VF_P(IMP(a.sf, b.sf), "lemma: started_ is never reset");
   VF_P(IMP(AT(ST_RUN_CVAL, b) || AT(ST_RUN_CERR, b) || AT(ST_RUN_CDONE, b), AT(ST_RUN_SOURCE, a)), "lemma: the completion operation runs only after the source's completion (the step that destroyed the source operation)");
@@ -434,7 +435,7 @@ void lemma_fin_lifecycle(void) {
 void lemma_fin_init(void) {
   struct fin_state i;
   i.slot[0] = i.slot[1] = i.slot[2] = i.slot[3] = i.slot[4] = i.slot[5] = SS_EMPTY;
-  i.slot[SL_sourceOp_] = SS_ALIVE; i.sf = STARTED_INIT; i.sg = 0; i.co = 0;       /* what the constructor's ensures says, with the member initialiser from the code */
+  i.slot[SL_sourceOp_] = SS_ALIVE; STARTED_INIT_INTO(i.sf); i.sg = 0; i.co = 0;       /* what the constructor's ensures says, with the member initialiser from the code */
   VF_P(AT(ST_UNSTARTED, i), "lemma: a freshly constructed operation is in the unstarted state (started_ initialised to false)");
   VF_P(INV(i), "lemma: the initial state satisfies the invariant");
   VF_CANARY("lemma_fin_init reachable");
